@@ -130,7 +130,54 @@ def sun_table(hass, day0, ndays):
     return tab
 
 
+def build_script_multi(case):
+    src = ""
+    for i, fn in enumerate(case["funcs"]):
+        hold = f", state_hold={fn['hold'] / TICK!r}" if fn.get("hold") is not None else ""
+        decs = [f"@state_active({expr_src(fn['sa'])!r})", f'@state_trigger("pyscript.x"{hold})']
+        if fn.get("trig_above"):
+            decs.reverse()
+        src += "\n".join(decs) + f"""
+def f{i}(**kw):
+    event.fire("pv_run", fn={i}, value=str(kw.get("value")))
+
+"""
+    src += """
+@state_trigger("pyscript.y")
+def g(**kw):
+    pass
+"""
+    return src
+
+
+async def scenario_multi(case):
+    """several functions on the same trigger entity: the driver only moves the clock and sets states; every run is
+    reported as (function, value, virtual microseconds) and attributed to occurrences by the property module"""
+    obs = {"multi_runs": [], "errors": [], "extra": 0}
+    async with PyscriptEnv(files={"a.py": build_script_multi(case)}, legacy=case["legacy"], base_dt=dt_of_us(case["base_us"])) as env:
+        hass = env.hass
+        for op in case["ops"]:
+            k = op["k"]
+            await goto(op["t"] + (128 if k == "collect" else 0), force=k != "collect")
+            if k == "xset":
+                hass.states.async_set("pyscript.x", str(op["v"]))
+            elif k == "sety":
+                hass.states.async_set("pyscript.y", str(op["v"]))
+            await settle()
+        await goto(case["ops"][-1]["t"] + 3600 * TICK, force=False)
+        await settle()
+        for t, typ, data in env.events:
+            if typ == "pv_run":
+                obs["multi_runs"].append([data.get("fn"), data.get("value"), round(t * 1000000)])
+        errs = [r for r in env.log.records if r[1] == "ERROR"]
+        obs["errors"].extend(f"{n}: {m}"[:300] for n, _l, m in errs[:3])
+        obs["extra"] += len(errs)
+    return obs
+
+
 async def scenario(case):
+    if case.get("multi"):
+        return await scenario_multi(case)
     from custom_components.pyscript.trigger import TrigTime
 
     calls = []
@@ -237,7 +284,7 @@ def main():
         except Exception as exc:  # pylint: disable=broad-except
             import traceback
 
-            out.append({"runs": [], "seen": [], "extra": 999, "startup": None, "sun": [],
+            out.append({"runs": [], "seen": [], "extra": 999, "startup": None, "sun": [], "multi_runs": [],
                         "errors": ["driver exception: " + "".join(traceback.format_exception_only(type(exc), exc))[:400]]})
     print("RESULT " + json.dumps(out))
 
